@@ -161,6 +161,11 @@ def one(rec, hub, seed, tier, i, tmpdir):
         df = df.copy()
         df.index = [np.arange(n_) // 2, np.zeros(n_, dtype=np.int64), rng.permutation(n_), np.arange(n_) + 100000, np.arange(n_) % 3][int(rng.integers(0, 5))].astype(np.int64)
     final = read_final(df, spec, info)
+    if text and len(df) and len(df.columns) and bool(df.apply(lambda col: col.map(lambda v: v is None or v == "" or (isinstance(v, float) and v != v))).all(axis=1).any()):
+        # a row without a single filled cell is no data row in a FILE (a workbook does not store it, a CSV reader skips the blank line):
+        # what the in-memory frame says about it (e.g. "the same empty row twice") does not describe what the file holds
+        rec.skip(M, "file routes: the frame has a completely blank row, which a file does not carry as a row")
+        return
     for am in (False, True):
         for ae in (False, True):
             if final[0] == "skip":
